@@ -25,10 +25,7 @@ CanStep == status = "running" /\ steps < limit /\ Len(st.exec) > 0
 
 Step ==
   /\ CanStep
-  /\ LET item == st.exec[1]
-         rest == PopN(st, "exec", 1)
-     IN \E r \in (IF IsBlock(item) THEN {Unfold(item.v, rest, max)}
-                                  ELSE Perform(item, rest, max, inputs)) :
+  /\ \E r \in StepOutcomes(st, max, inputs) :
           /\ st' = r.st
           /\ last' = r.kind
           /\ status' = IF r.kind = "fatal" THEN "fatal" ELSE "running"
